@@ -183,6 +183,11 @@ func init() {
 			key := keys[r%len(keys)]
 			// a second, never signed copy: only observers touch it (signing marshals plugins and matrices too)
 			fresh, _ := pipeline.Parse(strings.NewReader(sb.String()))
+			if r%2 == 1 {
+				// values only an API user builds: a matrix dimension whose value list is nil
+				c06nilDims(shared.Steps)
+				c06nilDims(fresh.Steps)
+			}
 			freshBefore := c19snapshot(*fresh)
 			signedBefore := c19snapshot(*shared)
 			signature.SignSteps(context.Background(), shared.Steps, key.priv, "repo")
